@@ -32,6 +32,12 @@ class NormalizedString(str, AnyAtomicType):
         """
         str.__init__(self)
 
+    @classmethod
+    def validate(cls, value: object) -> None:
+        if cls is NormalizedString and isinstance(value, str):
+            return  # whiteSpace is 'replace': every string is a valid literal
+        super().validate(value)
+
 
 class XsdToken(NormalizedString):
     name = 'token'
